@@ -306,3 +306,26 @@ CHECKS["C06"] = {
     ],
     "mandatory_labels": {"all": ["honest", "wrong-target", "attack/only-proof-stands", "tamper/bit-flip", "tamper/truncate", "foreign-key"]},
 }
+
+CHECKS["C19"] = {
+    "level": "exploration",
+    "level_text": ("rapid-generated call sequences against an in-memory service: every method of the protocol service interface (taken by reflection) with requests built through "
+                   "protoreflect from value pools (nil/empty/short/oversized/random bytes, real keys, identifiers and groups of the session, mutated groups, out-of-range enums), "
+                   "interleaved with group creation/join/activation/deactivation incl. the account group; every call under recover, process death = violation; plus generated "
+                   "bytes into the exported decode helpers"),
+    "level_note": "methods that need an external network service are called only with inputs their own validation rejects; hangs are recorded, not judged; data races are out of scope",
+    "technique": "property-based testing / API fuzzing (rapid state machine with reflection-built requests), oracle: no panic, service stays live",
+    "rule": ("case = one call sequence (10-40 calls) or one helper input; non-trivial = sequence with >=3 calls that pass validation and >=1 call issued while the account group is deactivated, "
+             "or a non-empty helper input; distinct = distinct sequence / input"),
+    "assumptions": ["requests are never nil pointers (gRPC always delivers a message); sub-messages may be nil"],
+    "units": [
+        {"pkg": ".", "run": "^TestVerif_C19_", Q: {"timeout": 900}, T: {"timeout": 3400, "shards": 12}},
+        {"pkg": "pkg/cryptoutil", "run": "^TestVerif_C19_", Q: {"timeout": 600}, T: {"timeout": 3400, "shards": 4}},
+    ],
+    "crash_patterns": [
+        {"re": r"^(panic: .*|fatal error: .*)$", "also": [r"berty\.tech/weshnet/v2"], "identity": "process-crash",
+         "site_re": r"^(berty\.tech/weshnet/v2[^\s(]*)\("},
+    ],
+    "mandatory_labels": {"all": ["sequences/call-after-account-group-deactivation", "calls/succeeded", "helpers", "decoders",
+                                 "method/ContactBlock", "method/DecodeContact", "method/GroupMetadataList", "method/ServiceExportData"]},
+}
